@@ -6,7 +6,37 @@ import (
 	"github.com/bbockelm/cedar/verifshim/vsched"
 )
 
-type Once = sync.Once
+// Once: under the scheduler a thread that finds the body running blocks cooperatively (the
+// body may contain scheduling points); completion is a release, every return an acquire.
+type Once struct {
+	real    sync.Once
+	done    bool
+	running bool
+	vc      []int
+}
+
+func (o *Once) Do(f func()) {
+	if !vsched.Active() {
+		o.real.Do(func() { f(); o.done = true })
+		return
+	}
+	vsched.Yield("Once.Do")
+	if o.done {
+		vsched.Cur().Join(o.vc)
+		return
+	}
+	if o.running {
+		vsched.Block("Once.Do(wait)", func() bool { return o.done })
+		vsched.Cur().Join(o.vc)
+		return
+	}
+	o.running = true
+	o.real.Do(f)
+	t := vsched.Cur()
+	o.vc = t.Snapshot()
+	t.Tick()
+	o.done, o.running = true, false
+}
 
 type Mutex struct {
 	real   sync.Mutex
